@@ -62,6 +62,8 @@ Section embed.
     { eexists _, _, _, _. split; [reflexivity|]. cbn. repeat split; auto; discriminate. }
     match goal with |- context [if ?b then (_, V_OUT, trig_of c a, _) else _] => destruct b end.
     { eexists _, _, _, _. split; [reflexivity|]. cbn. repeat split; auto; discriminate. }
+    match goal with |- context [if ?b then (_, V_OUT, trig_of c a, _) else _] => destruct b end.
+    { eexists _, _, _, _. split; [reflexivity|]. cbn. repeat split; auto; discriminate. }
     eexists _, _, _, _. split; [reflexivity|]. cbn. repeat split; auto; discriminate.
   Qed.
 
@@ -193,7 +195,12 @@ Section embed.
         match goal with |- context [entry_record c s1 ?fr tr sv] =>
           destruct (entry_record_shape s1 fr tr sv En1 Hon Hoff) as (top & F & N); exists fr, top end.
         cbn [f_depth f_addr f_start f_flags norecord noflags]. split; [exact Ri1|]. split; [reflexivity|]. split; [first [intros _; reflexivity | intro Q; discriminate Q]|]. split; [exact F|exact N].
-      - left. cbn [stack ridx out enabled]. repeat split; try reflexivity. exact En1.
+      - destruct (state_trig tr).
+        + right. split; [reflexivity|].
+          match goal with |- context [entry_record c s1 ?fr tr sv] =>
+            destruct (entry_record_shape s1 fr tr sv En1 Hon Hoff) as (top & F & N); exists fr, top end.
+          cbn [f_depth f_addr f_start f_flags norecord]. split; [exact Ri1|]. split; [reflexivity|]. split; [first [intros _; reflexivity | intro Q; discriminate Q]|]. split; [exact F|exact N].
+        + left. cbn [stack ridx out enabled]. repeat split; try reflexivity. exact En1.
       - right. split; [reflexivity|].
         match goal with |- context [entry_record c s1 ?fr tr sv] =>
           destruct (entry_record_shape s1 fr tr sv En1 Hon Hoff) as (top & F & N); exists fr, top end.
